@@ -65,14 +65,22 @@ let adj_string n nats g =
 (* H: a history of edits and questions; every "?a:b" becomes the four Ask events of the model *)
 let history_case f =
   match f with
-  | [_; ns; _layout; evs] ->
+  | _ :: ns :: _layout :: evs :: _ ->
     let n = int_of_string ns in
     let nn = nat_of_int n in
     let nats = Array.init (n + 1) nat_of_int in
     let num s = nats.(int_of_string s) in
     let parse ev =
       let rest = String.sub ev 1 (String.length ev - 1) in
-      if ev.[0] = '?' then
+      (* "!": a question to an OLD AnalyserModel object: not modelled (judged by the snapshot rule in the check);
+         "A": take a new AnalyserModel = an edit that changes nothing (the model empties its cache at every Edit) *)
+      if ev.[0] = '!' then []
+      else if ev.[0] = 'A' || ev.[0] = 'P' then [Edit Reparse]
+      else if ev.[0] = 'm' || ev.[0] = 'c' || ev.[0] = 'M' || ev.[0] = 'C' then
+        (match split ':' rest with [a; b] -> [Edit (IdOp (num a, num b))] | _ -> failwith "idop")
+      else if String.contains ev '=' then
+        (match split '=' ev with [a; b] -> [Edit (AddEq4 (num a, num b))] | _ -> failwith "add4")
+      else if ev.[0] = '?' then
         (match split ':' rest with
          | [a; b] -> List.map (fun k -> Ask (k, num a, num b)) [QIndirect; QDirect; QUtil; QCached]
          | _ -> failwith "ask")
